@@ -104,6 +104,23 @@ def gen_narrow_case(rng):
          for _ in range(rng.randint(1, 3))]
     return M, bnds, "narrow_storage", rank, pts
 
+def gen_large_sparse(rng):
+    """several thousand entries, a few per cent of them non-zero, rows without any variable among them (first, inner, last):
+    the sizes real configurator polyhedra have"""
+    R, n = rng.randint(64, 90), rng.randint(66, 84)
+    dens = rng.choice([0.02, 0.05, 0.1])
+    M = []
+    for i in range(R):
+        if i in (0, R - 1) and rng.random() < 0.5 or rng.random() < 0.12:
+            M.append([rng.choice([-1, 0, 0, 1])] + [0] * n)
+        else:
+            row = [rng.choice([-3, -1, 1, 1, 2]) if rng.random() < dens else 0 for _ in range(n)]
+            M.append([rng.randint(-2, 2)] + row)
+    bnds = [(0, 1) if rng.random() < 0.8 else (-2, 3) for _ in range(n)]
+    rank = rng.choice([1, 2, 2, 3])
+    pts = gen_points(rng, n, rank, bnds=bnds)
+    return M, bnds, "large_sparse", rank, pts
+
 def gen_case(rng):
     if rng.random() < 0.12:
         return gen_wide_case(rng)
@@ -183,6 +200,10 @@ def run(res, tier, seed):
     extra = 1500 if tier == "quick" else 20000
     for _ in range(extra):
         M, bnds, prof, rank, pts = gen_case(rng)
+        oracle_case(res, M, bnds, pts, rank)
+    for _ in range(16 if tier == "quick" else 200):
+        M, bnds, prof, rank, pts = gen_large_sparse(rng)
+        res.count("large_sparse_polyhedra")
         oracle_case(res, M, bnds, pts, rank)
     if tier != "quick":
         # every point of the box +-1 for 300 systems, as one rank-2 array and as rank-3 groups of rows
